@@ -22,7 +22,8 @@ fixed evaluation: SEM and pairwise / against-zero / against-ceiling p-values  C0
   per-subject evaluations; covariance = cov(ddof=0)/n with factor n/(n-1)       ttest_1samp and literal formulas; per-subject
                                                                                 evaluations re-computed for cosine / corr
 model_var, diff_var, noise_ceil_var are the contrasts of the stored           C06/contrasts (orc_contrasts): scalar / vector /
-  covariance with the documented n/(n-1) factor                                 matrix (PSD and sentinel-valued), with /
+  covariance with the documented n/(n-1) factor                                 matrix (PSD, and symmetric with all entries
+                                                                                distinct = pure index plumbing), with /
                                                                                 without ceiling rows, Result(...) and
                                                                                 extract_variances(...)
 dual bootstrap: never above the two-factor variance, never below a corrected  C06/dual-bounds (orc_dual_bounds): 3-stacks,
@@ -42,8 +43,9 @@ rank-sum tests = Wilcoxon signed-rank tests of the NaN-aware per-subject      C0
                                                                                 2^n sign patterns (n <= 9, no ties)
 t-tests: larger effect at equal variance never yields a larger p-value        C06/monotone (orc_monotone)
 model means are the NaN-aware averages (2..5-D)                               C06/means (orc_means)
-standard errors non-negative (also for negative variance entries), CI         C06/sem-ci (orc_sem_ci)
-  ordering lo <= mean <= hi (t), lo <= hi and coverage counts (bootstrap)
+standard errors non-negative (also for a negative stored variance), CI        C06/sem-ci (orc_sem_ci)
+  = mean -/+ sem * t quantile, lo <= mean <= hi (t); lo <= hi and at most
+  cut*(N+1) samples outside on either side (bootstrap, NaN-free, enough samples)
 permuting the models permutes every output (variances, means, SEM, CI, all    C06/equivariance (orc_equivariance): EVERY
   p-values of all three test types; bootstrap samples with partial ties)        permutation of 2..4 models
 
@@ -56,7 +58,8 @@ Known / found on the unchanged tree (own input_class each, see C06_findings.md)
   nan-single-model                                         get_means drops samples by model 0 only
 
 NOT covered by this tier
-* "for all inputs": everything here is bounded (seeded arrays, small shapes; exhaustive only over model permutations).
+* "for all inputs": everything here is bounded (seeded arrays, small shapes; exhaustive only over the permutations of
+  2..4 models within each seeded case).
   The all-reals identities are the business of engines A / B / L (DESIGN C06).
 * correctness of scipy.stats distributions (assumed, as in DESIGN).
 * rank-sum tests with NaN folds (scipy propagates NaN) and bootstrap p-values with NaN samples (NaN samples are counted
@@ -64,6 +67,9 @@ NOT covered by this tier
 * shape of the bootstrap zero / ceiling p-values for > 2-D evaluations (one value per trailing entry, not per model).
 * variance below machine eps (clamp max(var, eps) in the t-tests): cases are built with variances >> eps.
 * cv_method 'fixed' / 'crossvalidation' means for arrays that are not 3-D with a single leading sample.
+* eval_fixed with a single RDM (no variance, tests raise) and with identical models (difference variance 0: the classical
+  t statistic is undefined, the repo clamps the variance at eps).
+* bootstrap confidence intervals with NaN samples or with fewer than 1/cut - 1 samples (np.quantile gives NaN).
 """
 import functools
 import itertools
@@ -1097,10 +1103,10 @@ def tier_c(run, thorough):
     # ---- ranksum --------------------------------------------------------------------------------------------------------
     bd = Bounded(run, 'C06/ranksum', 'C06/ranksum_pair_test/oracle/wilcoxon-signed-rank',
                  '3-D arrays: 1..12 samples x 1..4 models x 5..%d subjects, no NaN / NaN samples, continuous / tied; scipy wilcoxon on the '
-                 'differences, exact enumeration for <= 9 untied subjects; %d seeds' % (14 if thorough else 12, 2 if thorough else 1),
+                 'differences, exact enumeration for <= 9 untied subjects; %d seeds' % (14 if thorough else 12, 3 if thorough else 1),
                  function='ranksum_pair_test')
     i = 0
-    for seed in range(2 if thorough else 1):
+    for seed in range(3 if thorough else 1):
         for M in (1, 2, 3, 4):
             for S in ((5, 6, 7, 9, 12, 14) if thorough else (5, 7, 9, 12)):
                 for nan in ('none', 'samples'):
@@ -1190,10 +1196,10 @@ def tier_c(run, thorough):
                  'EVERY permutation of 2..4 models (%s): variances, means, SEM, t and bootstrap CI, pairwise / zero / ceiling / test_all '
                  'p-values for t-test, bootstrap (continuous and partially tied samples, 2..5-D) and ranksum (3-D); vector / matrix / '
                  '3-stack covariances with / without ceiling rows; NaN samples; %d seeds'
-                 % ('exhaustive; plus 5 models (not ranksum) under 24 seeded permutations' if thorough else 'exhaustive', 2 if thorough else 1),
+                 % ('exhaustive; plus 5 models (not ranksum) under 24 seeded permutations' if thorough else 'exhaustive', 3 if thorough else 1),
                  function='Result')
     i = 0
-    for seed in range(2 if thorough else 1):
+    for seed in range(3 if thorough else 1):
         for nd in (2, 3, 4, 5):
             for M in ((2, 3, 4, 5) if thorough else (2, 3, 4)):
                 for ties in (False, True):
